@@ -33,15 +33,19 @@ func (c *VerifChecklist) Key(ip net.IP) (string, bool) {
 	return "", false
 }
 
-// VerifResyncItem handles the snapshot's item of one ip.
+// VerifResyncItem handles the snapshot's item of one ip, as part of the pass the snapshot was fetched for: the pass's own
+// meta is used (narrowed to the item for the call), so whatever a pass keeps between its items is kept here too.
 func (p *FloatingIPPlugin) VerifResyncItem(c *VerifChecklist, ip net.IP) {
-	only := &resyncMeta{}
-	for _, o := range c.meta.allocatedIPs {
+	all := c.meta.allocatedIPs
+	var only []resyncObj
+	for _, o := range all {
 		if o.fip.IP.Equal(ip) {
-			only.allocatedIPs = append(only.allocatedIPs, o)
+			only = append(only, o)
 		}
 	}
-	p.resyncAllocatedIPs(only)
+	c.meta.allocatedIPs = only
+	p.resyncAllocatedIPs(c.meta)
+	c.meta.allocatedIPs = all
 }
 
 // VerifWrapIpam replaces the plugin's IPAM by wrap(current IPAM): the harness interposes on the calls the plugin makes
